@@ -88,21 +88,23 @@ theorem lockList_isLock (cfg : Cfg) (fs : FS) : ∀ p ∈ lockList cfg fs, isLoc
 theorem isLock_notSaves {p : Path} (h : isLock p = true) : notSaves p = true := by
   cases p <;> simp_all [isLock, notSaves]
 
-set_option maxRecDepth 8000 in
 theorem constructChr_T (cfg : Cfg) (rs : Bool) (c : Chr) (fs : FS) :
     (eventsOf (constructChr fixed cfg rs c fs)).all (fun e => Tcon c e.path) = true := by
-  unfold constructChr
-  split
-  · simp [eventsOf]
-  · rcases cfg with ⟨chrs, mchrs, bchrs, genedb, rg, keepTmp, unmapped, fromSaves⟩
-    cases genedb <;> cases rg <;>
-      simp [eventsOf, eventsOf_append, evs, aggInit, printerStreams, aggPrinters, gffStreams, grouped, ungroupedGlobal,
-        groupedGlobal, modelGrouped, dumpUngrouped, dumpGrouped, Tcon, Ev.path, fixed]
+  by_cases hb : (rs && fs.has (.processed c)) = true
+  · simp [constructChr, hb, eventsOf]
+  · rw [constructChr_fixed cfg rs c fs (by simpa using hb)]
+    have h1 := constructBody_T cfg c (tokOf (fs.good .info))
+    simp only [constructBody, List.all_append, Bool.and_eq_true] at h1
+    have e : eventsOf (Act.load (.multimap c) :: evs (constructHead cfg c) ++ [Act.load (.save c)] ++
+        evs (constructTail cfg c (tokOf (fs.good .info)) ++ [Ev.create (.processed c)]))
+        = constructHead cfg c ++ (constructTail cfg c (tokOf (fs.good .info)) ++ [Ev.create (.processed c)]) := by
+      simp [eventsOf, eventsOf_append]
+    rw [e, List.all_append, List.all_append, h1.1, h1.2]
+    simp [Tcon, Ev.path]
 
 set_option maxRecDepth 4000 in
-theorem saves_untouched {cfg : Cfg} (wf : WF cfg) (hm : cfg.fromSaves = true) (ord : List Path) (rs sk : Bool) (fs : FS) :
-    ∀ e ∈ (runStages (forceClean fixed cfg rs :: stages fixed cfg ord rs sk) fs).evs, notSaves e.path = true := by
-  apply runStages_evs_all
+theorem stages_notSaves {cfg : Cfg} (wf : WF cfg) (hm : cfg.fromSaves = true) (ord : List Path) (rs sk : Bool) :
+    ∀ s ∈ forceClean fixed cfg rs :: stages fixed cfg ord rs sk, ∀ fs, ∀ e ∈ eventsOf (s fs), notSaves e.path = true := by
   intro s hs fs'
   rw [stages_eq] at hs
   simp only [hm, Bool.or_true, restStages, List.mem_cons, List.mem_append, List.mem_map, Bool.true_or, if_true,
@@ -153,12 +155,17 @@ theorem saves_untouched {cfg : Cfg} (wf : WF cfg) (hm : cfg.fromSaves = true) (o
     have hT : Tmerge e.path = true := by
       unfold mergeStage at he
       simp only [eventsOf_append, eventsOf_evs, List.mem_append, List.mem_map] at he
-      rcases he with he | ⟨s, _, rfl⟩
+      rcases he with (he | he) | ⟨s, _, rfl⟩
       · rw [eventsOf_flatMap] at he; simp only [List.mem_flatMap] at he
         obtain ⟨st, _, he⟩ := he
         exact mergeEv_T (step_mergeEv wf true fs' st e he)
+      · exact mergeEv_T (sqMerge_mergeEv wf e he)
       · rfl
     revert hT; cases e.path <;> simp [Tmerge, notSaves]
+
+theorem saves_untouched {cfg : Cfg} (wf : WF cfg) (hm : cfg.fromSaves = true) (ord : List Path) (rs sk : Bool) (fs : FS) :
+    ∀ e ∈ (runStages (forceClean fixed cfg rs :: stages fixed cfg ord rs sk) fs).evs, notSaves e.path = true :=
+  runStages_evs_all _ _ (stages_notSaves wf hm ord rs sk) fs
 
 
 /-! ### the lock-removal step of a fresh run -/
